@@ -232,6 +232,8 @@ impl ClaimSpec {
 
 #[derive(Serialize, Deserialize, Clone, Debug, PartialEq)]
 pub enum BOp {
+    /// GenericBuilder::extend_claims with a map key -> bare value
+    ExtendClaims(std::collections::BTreeMap<String, Value>),
     SetClaim(ClaimSpec),
     RemoveClaim(String),
     Ack,
@@ -389,6 +391,10 @@ pub enum Op {
         footer: Option<String>,
         assertion: Option<String>,
         out: u32,
+        /// issue once, then call set_payload again on the SAME core builder object and issue again; the
+        /// second token is the one that travels
+        #[serde(default)]
+        rebuild: bool,
         /// order of the core builder's setter calls: index into the 6 permutations of
         /// (set_payload, set_footer, set_implicit_assertion); 0 = payload, footer, assertion
         #[serde(default)]
